@@ -86,3 +86,48 @@ def add_gap_inputs(seed=0, tier='quick'):
         for rnd in RND5:
             for sub in (0, 1):
                 yield dict(s=s, t=t, prec=prec, rnd=rnd, _sub=sub)
+
+
+def div_inputs(seed=0, tier='quick'):
+    """(s, t, prec, rnd): all odd mantissa pairs below a bound x signs x precisions x modes,
+    plus long patterned mantissas around the precision"""
+    rng = random.Random(seed)
+    top = 64 if tier == 'quick' else 256
+    precs = (1, 2, 3, 4, 5, 7, 10) if tier == 'quick' else tuple(range(1, 14)) + (24, 53)
+    for sm in range(1, top, 2):
+        for tm in range(3, top, 2):
+            for prec in precs:
+                for rnd in RND5:
+                    for ss, ts in ((0, 0), (1, 0)):
+                        yield dict(s=mk(ss, sm, 0), t=mk(ts, tm, 0), prec=prec, rnd=rnd)
+    for prec in (1, 2, 5, 10, 24, 53, 64):
+        for sbc in bit_lengths_around(prec):
+            for tbc in bit_lengths_around(prec):
+                for sm in mant_patterns(sbc, rng, 1)[:4]:
+                    for tm in mant_patterns(tbc, rng, 1)[:4]:
+                        if tm == 1:
+                            continue
+                        for rnd in RND5:
+                            for ss, ts in ((0, 0), (0, 1), (1, 1)):
+                                yield dict(s=(ss, sm, -3, sbc), t=(ts, tm, 5, tbc), prec=prec, rnd=rnd)
+
+
+def rdiv_inputs(seed=0, tier='quick'):
+    rng = random.Random(seed)
+    top = 48 if tier == 'quick' else 200
+    for n in list(range(-top, top)) + [10 ** 20 + 7, -(2 ** 70 + 1)]:
+        if n == 0:
+            continue
+        for tm in range(1, top, 2):
+            for prec in (1, 2, 3, 5, 10, 53):
+                for rnd in RND5:
+                    yield dict(n=n, t=mk(0, tm, -2), prec=prec, rnd=rnd)
+    for prec in (1, 5, 24, 53):
+        for tbc in bit_lengths_around(prec):
+            for tm in mant_patterns(tbc, rng, 1)[:4]:
+                for n in (1, -1, 3, 7, 10, -1000, 2 ** 64 - 1):
+                    for rnd in RND5:
+                        yield dict(n=n, t=(1, tm, 3, tbc), prec=prec, rnd=rnd)
+
+
+GENS = {'add_gap_inputs': add_gap_inputs, 'div_inputs': div_inputs, 'rdiv_inputs': rdiv_inputs}
